@@ -58,7 +58,7 @@ structure St where
 structure Cfg where
   storeFirst : Bool := true
 
-inductive Actor | acc | w (j : Nat) | caller | conn (j : Nat)
+inductive Actor | acc | accF | w (j : Nat) | caller | conn (j : Nat)
   deriving DecidableEq, Repr
 
 def init (n : Nat) : St := { n := n }
@@ -86,25 +86,27 @@ def accept (s : St) : St :=
   | [] => s
   | j :: rest => { s with acc := { s.acc with backlog := rest } }.setW j { s.ws j with other := true }
 
-/-- the `for (const auto& event : events)` loop of Listener::run; `true` = it returned on the shutdown tag -/
-def handleBatch (s : St) : List Src → St × Bool
+/-- the `for (const auto& event : events)` loop of Listener::run; `true` = it returned on the shutdown tag.
+    `fail`: accept4 fails (EMFILE, ...): the SocketError is caught and logged INSIDE the loop, the connection stays in the
+    backlog and the remaining events of the batch are still looked at -/
+def handleBatch (fail : Bool) (s : St) : List Src → St × Bool
   | [] => (s, false)
   | .shut :: _ => (s, true)
-  | .listen :: rest => handleBatch (accept s) rest
+  | .listen :: rest => handleBatch fail (if fail then s else accept s) rest
 
 def report (a : Acceptor) : List Src := a.ready.filter fun e => e == .shut || !a.backlog.isEmpty
 
-def stepA (s : St) : St × String :=
+def stepA (fail : Bool) (s : St) : St × String :=
   match s.acc.pc with
   | .poll =>
     if (report s.acc).isEmpty then ({ s with acc := { s.acc with ready := [] } }, "b")
     else ({ s with acc := { s.acc with pc := .woke, batch := report s.acc,
                                        ready := if (report s.acc).contains .listen then [.listen] else [] } }, "w")
   | .woke =>
-    if (handleBatch s s.acc.batch).2 then
-      ({ (handleBatch s s.acc.batch).1 with acc := { (handleBatch s s.acc.batch).1.acc with pc := .exited, batch := [] } }, "x")
+    if (handleBatch fail s s.acc.batch).2 then
+      ({ (handleBatch fail s s.acc.batch).1 with acc := { (handleBatch fail s s.acc.batch).1.acc with pc := .exited, batch := [] } }, "x")
     else
-      ({ (handleBatch s s.acc.batch).1 with acc := { (handleBatch s s.acc.batch).1.acc with pc := .poll, batch := [] } }, "p")
+      ({ (handleBatch fail s s.acc.batch).1 with acc := { (handleBatch fail s s.acc.batch).1.acc with pc := .poll, batch := [] } }, "p")
   | .exited => (s, "-")
 
 def notifyAcc (s : St) : St :=
@@ -129,7 +131,8 @@ def connect (s : St) (j : Nat) : St :=
                                ready := if s.acc.ready.contains .listen then s.acc.ready else s.acc.ready ++ [.listen] } }
 
 def stepL (cfg : Cfg) (s : St) : Actor → St × String
-  | .acc => stepA s
+  | .acc => stepA false s
+  | .accF => stepA true s      -- an acceptor step during which accept4 fails
   | .w j => stepW s j
   | .caller => stepS cfg s
   | .conn j => (connect s j, "c")
